@@ -269,6 +269,8 @@ def main(argv=None):
         print(f"  counterexample {key}: {detail}")
         print(f"VIOLATION property={pid} replay={path}")
     if violations:
+        for m in sorted(set(x[:300] for x in inconclusive))[:4]:
+            print("note (also inconclusive):", m)
         return 1
     if inconclusive:
         shown = []
